@@ -27,6 +27,7 @@ fn main() {
         "inline" => s_text::inline_line,
         "intfn" => s_text::intfn_line,
         "evalseq" => s_text::evalseq_line,
+        "unitq" => s_text::unitq_line,
         "roll" => s_text::roll_line,
         "evalhex" => s_text::evalhex_line,
         "strlit" => s_text::strlit_line,
